@@ -87,7 +87,15 @@ func VerifC20Entropy() {
 	case 0:
 		tok, err = New(rng, root, defaultSymbolTable.Clone(), c20Authority())
 	case 1:
-		b := NewBuilder(root, WithRNG(rng))
+		// the random source given together with other options must still be the one that is used
+		opts := []builderOption{WithRNG(rng)}
+		switch vChoose("builder-options", 3) {
+		case 1:
+			opts = []builderOption{WithRNG(rng), WithRootKeyID(vUint32("keyid"))}
+		case 2:
+			opts = []builderOption{WithRootKeyID(vUint32("keyid")), WithRNG(rng), WithSymbols(defaultSymbolTable.Clone())}
+		}
+		b := NewBuilder(root, opts...)
 		b.AddAuthorityFact(Fact{Predicate{Name: "right", IDs: []Term{String("read")}}})
 		tok, err = b.Build()
 	default:
